@@ -196,8 +196,10 @@ def _hs(s):
 
 def _mstate(m):
     raw = m.raw_content
-    return "%s,%s,%d,%s" % ("none" if raw is None else hx(raw), _hs(m.headers.get("content-encoding")),
-                            1 if "transfer-encoding" in m.headers else 0, m.headers.get("content-length", "none"))
+    tr = m.trailers
+    return "%s,%s,%d,%s,%d,%d" % ("none" if raw is None else hx(raw), _hs(m.headers.get("content-encoding")),
+                                  1 if "transfer-encoding" in m.headers else 0, m.headers.get("content-length", "none"),
+                                  0 if tr is None else (2 if len(tr) else 1), VERSIONS.index(m.http_version))
 
 
 def _cache_r():
@@ -211,6 +213,10 @@ def _cache_r():
 def _need_r(need):
     if need is None: return "-"
     return ":".join([need[0], _hs(need[1]), _hs(need[2]), hx(need[3])])
+
+
+VERSIONS = ["HTTP/1.1", "HTTP/2.0", "HTTP/3"]
+TRAILERS = ["none", "empty", "some"]          # Message.trailers: None / Headers() (falsy) / non-empty Headers (truthy)
 
 
 def _new_msgs():
@@ -229,7 +235,7 @@ def _need(ms, op, v):
     if o == "enc":
         n = op["c"].lower()
         return None if n in IDENT_ENC else ("E", n, op["e"], unhx(op["data_hex"]))
-    if o in ("raw", "ce", "te", "cl"): return None
+    if o in ("raw", "ce", "te", "cl", "tr", "ver"): return None
     m = ms[op["i"]]
     ce = m.headers.get("content-encoding")
     raw = m.raw_content
@@ -274,6 +280,12 @@ def _exec(ms, op, v):
         if o == "cl":
             if op["n"] is None: m.headers.pop("content-length", None)
             else: m.headers["content-length"] = str(op["n"])
+            return "done"
+        if o == "tr":
+            m.trailers = {"none": None, "empty": http.Headers(), "some": http.Headers([(b"grpc-status", b"0"), (b"x-checksum", b"abc")])}[op["t"]]
+            return "done"
+        if o == "ver":
+            m.http_version = op["v"]
             return "done"
     except ValueError:
         return "verr"
@@ -348,7 +360,7 @@ class Check(PropertyCheck):
     prop = "C31"
     design_ref = "§5 C31"
     level_text = (
-        "21 Lean theorems, each over ALL call histories (any interleaving of encoding.decode/encode on arbitrary bodies and "
+        "23 Lean theorems, each over ALL call histories (any interleaving of encoding.decode/encode on arbitrary bodies and "
         "of set_content/get_content/Message.decode/Message.encode/header mutations on two messages sharing the one cache "
         "entry), by induction on the op list via `stepWith_cache` (what one op can do to the cache) and the invariant "
         "'the entry (e,c,err,d) has a compressed coding and the uncached decoder maps e to d'. "
@@ -362,7 +374,10 @@ class Check(PropertyCheck):
         "decode_idempotent, decode_encode_preserves and decode_encode_preserves_interleaved (arbitrary non-writing sub-histories "
         "between decode, encode and the read), encode_after_encode (encode wraps: dec_c1(dec_c2 raw) = v, content becomes the "
         "c1 stream). Content-Length: content_length_eq_raw_len_without_TE (one step, any coding, any codec result) and "
-        "content_length_invariant (carried along any non-writing tail after a completed set_content/decode/encode). Raw body: "
+        "content_length_invariant (carried along any tail of non-writing ops and trailer/version changes after a completed "
+        "set_content/decode/encode). The message state carries trailers (absent/empty/non-empty) and HTTP version; both "
+        "Content-Length theorems hold for every value of them, and trailers_irrelevant / trailers_irrelevant_history prove that no "
+        "op's result, cache effect or other message field depends on them (seed c31-5 made set_content read the trailers). Raw body: "
         "raw_decodes_to_content_lenient (all histories, mitmproxy's own decoder), raw_decodes_to_content_partial / _partial_hit "
         "(strict reference decoder, F-C31a class excluded by a decidable guard), raw_decodes_to_content_counterexample. "
         "Everything of Message.set_content/get_content/decode/encode is inside the model: None body, set_content(None), encode "
@@ -390,7 +405,10 @@ class Check(PropertyCheck):
         "maps them to the content, and the entry was made by a real decode call of this history (known_selftest, 42 triples, runs "
         "in setup()). Oracle reading: assigning None and assignments under bytes-/text-codecs carry no claim (exceptions other than "
         "ValueError/TypeError are still flagged); `deflateraw` is checked for read-back/history independence but not against an "
-        "independent decoder (no independent definition of that label). Observation, not flagged: text codecs as Content-Encoding "
+        "independent decoder (no independent definition of that label). The oracle's Content-Length clause takes the Transfer-Encoding state from "
+        "the case's own `te` ops (not from the run) and applies after every completed set_content(bytes) / Message.encode / "
+        "Message.decode of a non-empty body, with no condition on trailers, version or the previous Content-Length. "
+        "Observation, not flagged: text codecs as Content-Encoding "
         "(utf8, latin-1, rot13) let TypeError escape from set_content/Message.encode; the model reproduces it (terr).")
     technique = "Lean 4 proof (cache invariant by induction over op histories, codecs as a law-carrying parameter) + differential history correspondence + generated name tables"
     rule = ("a case is a history of 3-30 ops (encoding.decode/encode with errors strict/replace, set_content/get_content/"
@@ -399,7 +417,11 @@ class Check(PropertyCheck):
             "(identity, none, '', gzip/deflate/deflateraw/br/zstd in mixed case, unknown, Python bytes- and text-codecs); "
             "small-scope exhaustive two-op histories first, then 60% scenario templates (peer body -> read -> re-assign -> "
             "decode -> re-encode with interleaved noise on other bodies), 30% random ops, 10% raw random bytes. distinct = "
-            "distinct history; non-trivial = at least one non-identity codec call or cache hit.")
+            "distinct history; non-trivial = at least one non-identity codec call or cache hit. Message framing is varied too "
+            "(round 5): trailers None / empty Headers() / non-empty, Transfer-Encoding present / absent, Content-Length absent / "
+            "correct / stale, HTTP/1.1 / HTTP/2.0 / HTTP/3, a Response and a Request object — as a small-scope block (every "
+            "trailers x TE x Content-Length-state x coding x {set bytes, decode, encode, set None}) run first, as `tr`/`ver`/`te`/`cl` "
+            "mutator ops inside random histories, and as a framing preamble on 25% of the generated histories.")
     budget = {"quick": 3000, "thorough": 100000}
     time_budget = {"quick": 25, "thorough": 420}
     fingerprints = ["mitmproxy.net.encoding:decode", "mitmproxy.net.encoding:encode", "mitmproxy.net.encoding:identity",
@@ -408,7 +430,7 @@ class Check(PropertyCheck):
                     "mitmproxy.net.encoding:decode_brotli", "mitmproxy.net.encoding:encode_brotli",
                     "mitmproxy.net.encoding:decode_zstd", "mitmproxy.net.encoding:encode_zstd",
                     "mitmproxy.http:Message.set_content", "mitmproxy.http:Message.get_content",
-                    "mitmproxy.http:Message.decode", "mitmproxy.http:Message.encode"]
+                    "mitmproxy.http:Message.decode", "mitmproxy.http:Message.encode", "mitmproxy.http:Message.trailers"]
     trusted_base = ["zlib / gzip / brotli / zstd libraries: assumed to satisfy the Codecs laws stated in Model/C31.lean "
                     "(sampled on every run by the reference-decoder oracle, not proved)",
                     "Python codecs registry behaviour for non-custom names enters the model as the supplied `fresh` result"]
@@ -508,7 +530,7 @@ class Check(PropertyCheck):
 
     def _rand_op(self, rng, bodies, cods):
         k = rng.weighted([(14, "dec"), (12, "enc"), (14, "set"), (14, "get"), (8, "mdec"), (8, "menc"),
-                          (8, "raw"), (8, "ce"), (3, "te"), (2, "cl")])
+                          (8, "raw"), (8, "ce"), (3, "te"), (2, "cl"), (2, "tr"), (1, "ver")])
         i = rng.randint(0, 1)
         if k in ("dec", "enc"):
             return {"o": k, "data_hex": hx(rng.pick(bodies)), "c": rng.pick(cods), "e": "replace" if rng.chance(0.15) else "strict"}
@@ -521,6 +543,8 @@ class Check(PropertyCheck):
         if k == "menc": return {"o": k, "i": i, "c": rng.pick(cods)}
         if k == "ce": return {"o": k, "i": i, "c": None if rng.chance(0.2) else rng.pick(cods)}
         if k == "te": return {"o": k, "i": i, "on": rng.randint(0, 1)}
+        if k == "tr": return {"o": k, "i": i, "t": rng.pick(TRAILERS)}
+        if k == "ver": return {"o": k, "i": i, "v": rng.pick(VERSIONS)}
         return {"o": k, "i": i, "n": None if rng.chance(0.3) else rng.randint(0, 40)}
 
     def _history(self, rng):
@@ -577,18 +601,62 @@ class Check(PropertyCheck):
         cods = [rng.pick(CODINGS) for _ in range(3)]
         return {"ops": [self._rand_op(rng, bodies, cods) for _ in range(rng.randint(3, 20))]}
 
+    @staticmethod
+    def _msg_state(i, tr, ver, te, cl):
+        """ops that put message i into a given framing state: trailers, HTTP version, Transfer-Encoding, Content-Length
+        (None absent / an int — correct or stale, the caller decides)"""
+        ops = [{"o": "tr", "i": i, "t": tr}, {"o": "ver", "i": i, "v": ver}, {"o": "te", "i": i, "on": 1 if te else 0}]
+        ops.append({"o": "cl", "i": i, "n": cl})
+        return ops
+
+    def _framing_scope(self):
+        """small scope over the message-framing dimensions: trailers x Transfer-Encoding x Content-Length state (absent /
+        correct / stale) x coding (identity + every compressed coding) x content-changing action (set bytes / decode /
+        encode / set None), HTTP version and request/response rotating through"""
+        n = 0
+        for tr in TRAILERS:
+            for te in (0, 1):
+                for cls in ("absent", "correct", "stale"):
+                    for c in [None] + [k for k in DOCUMENTED_CACHED if k in ORIG_ENC]:
+                        for act in ("set", "mdec", "menc", "setnone"):
+                            i = n % 2; ver = VERSIONS[(n // 2) % 3]; n += 1
+                            body = ORIG_ENC[c](P1) if c else P1
+                            cl = None if cls == "absent" else (len(body) if cls == "correct" else len(body) + 7)
+                            ops = [{"o": "raw", "i": i, "m": "val", "v_hex": hx(body)}, {"o": "ce", "i": i, "c": c}]
+                            ops += self._msg_state(i, tr, ver, te, cl)
+                            if act == "set": ops.append({"o": "set", "i": i, "m": "val", "v_hex": hx(P2)})
+                            elif act == "mdec": ops.append({"o": "mdec", "i": i, "s": 1})
+                            elif act == "menc": ops.append({"o": "menc", "i": i, "c": "gzip" if c != "gzip" else "br"})
+                            else: ops.append({"o": "set", "i": i, "m": "none"})
+                            ops.append({"o": "get", "i": i, "s": 1})
+                            yield {"ops": ops}
+
     def generate(self, rng, tier):
+        yield from self._framing_scope()
         yield from self._small_scope(tier == "thorough")
         while True:
-            yield self._history(rng)
+            h = self._history(rng)
+            if rng.chance(0.25):        # start from messages with trailers / HTTP-2-3 / TE / absent-correct-stale Content-Length
+                pre = []
+                for i in (0, 1):
+                    if rng.chance(0.7):
+                        pre += self._msg_state(i, rng.pick(TRAILERS), rng.pick(VERSIONS), rng.chance(0.25),
+                                               rng.pick([None, None, 0, 12, rng.randint(0, 60)]))
+                h = {"ops": (pre + h["ops"])[:36]}
+            yield h
 
     def exhaustive(self, tier):
-        return self._small_scope(True)
+        yield from self._framing_scope()
+        yield from self._small_scope(True)
 
     def neighbours(self, case, rng):
         ops = case["ops"]
         for k in range(len(ops)):
             yield {"ops": ops[:k] + ops[k + 1:]}
+        for i in (0, 1):                     # the same history on messages framed differently
+            for tr in TRAILERS:
+                for cl in (None, 12):
+                    yield {"ops": self._msg_state(i, tr, "HTTP/2.0" if tr == "some" else "HTTP/1.1", False, cl) + ops}
         for k, op in enumerate(ops):
             if "c" in op and op["c"] is not None:
                 for c in ("gzip", "deflate", "br", "zstd", "identity", "foo"):
@@ -653,8 +721,10 @@ class Check(PropertyCheck):
         encode result / of the raw body stored by an assignment.  No clause is skipped because another one failed."""
         fails = []
         ops, recs = case["ops"], obs["ops"]
+        te_ops = [False, False]       # is a Transfer-Encoding header present — from the case's own `te` ops, not from the run
         for k, (op, r) in enumerate(zip(ops, recs)):
             o = op["o"]
+            if o == "te": te_ops[op["i"]] = bool(op["on"])
             bad = [t for t in [r["res"], r["iso_res"]] + list(r["rb"]) if t.startswith("exc:") or t.startswith("weird")]
             if bad or r["cache"].startswith("weird"):
                 fails.append(f"op {k} [exc] {o}: {bad or r['cache']} (only bytes/None results and ValueError / TypeError are possible outcomes)")
@@ -683,9 +753,12 @@ class Check(PropertyCheck):
                         if raw is None or ref_decode(ce0 or "identity", raw) != v:
                             fails.append(f"op {k} [raw-ref] msg={i} raw={'none' if raw is None else hx(raw)} coding={_hs((ce0 or 'identity').lower())} "
                                          f"content={hx(v)}: the raw body does not decode to the assigned content with the reference decoder")
-                    te, cl = r["after"][i].split(",")[2:4]
-                    if te == "0" and (raw is None or cl != str(len(raw))):
-                        fails.append(f"op {k} [content-length] Content-Length {cl} but raw body has {len(raw or b'')} bytes, no Transfer-Encoding")
+                    # "absent Transfer-Encoding, Content-Length equals the raw body length" — whatever else the message
+                    # carries (trailers, HTTP version, a stale Content-Length); the assignment completed (done / verr above)
+                    cl = r["after"][i].split(",")[3]
+                    if not te_ops[i] and (raw is None or cl != str(len(raw))):
+                        fails.append(f"op {k} [content-length] Content-Length {cl} but raw body has {len(raw or b'')} bytes, no Transfer-Encoding "
+                                     f"(message state {r['after'][i]})")
             # ---- "Decoding a message … preserves its content": on a message whose content is readable (strict) under an
             #      identity / compressed coding, Message.decode() completes and the content reads the same afterwards
             if o == "mdec":
@@ -697,6 +770,11 @@ class Check(PropertyCheck):
                         fails.append(f"op {k} [decode] Message.decode() ended {r['res']} on a message whose content reads {c0}")
                     elif r["rb"][i] != c0:
                         fails.append(f"op {k} [decode] content {c0} before Message.decode(), {r['rb'][i]} after")
+                    # decoding a non-empty body re-assigns the content: same Content-Length sentence
+                    raw0, raw1, cl = _raw_of(r["before"][i]), _raw_of(r["after"][i]), r["after"][i].split(",")[3]
+                    if r["res"] == "done" and raw0 and not te_ops[i] and (raw1 is None or cl != str(len(raw1))):
+                        fails.append(f"op {k} [content-length] Content-Length {cl} but raw body has {len(raw1 or b'')} bytes after Message.decode(), "
+                                     f"no Transfer-Encoding (message state {r['after'][i]})")
             # ---- "Decoding a message and re-encoding it preserves its content"
             if o == "menc" and k > 0 and ops[k - 1]["o"] == "mdec" and ops[k - 1]["i"] == op["i"] and recs[k - 1]["res"] == "done":
                 i = op["i"]
@@ -892,6 +970,8 @@ class Check(PropertyCheck):
             elif o == "ce": lines.append(f"ce {op['i']} {_hs(op['c'])}")
             elif o == "te": lines.append(f"te {op['i']} {op['on']}")
             elif o == "cl": lines.append(f"cl {op['i']} {'none' if op['n'] is None else op['n']}")
+            elif o == "tr": lines.append(f"tr {op['i']} {TRAILERS.index(op['t'])}")
+            elif o == "ver": lines.append(f"ver {op['i']} {VERSIONS.index(op['v'])}")
         return lines
 
     def model_obs(self, case, replies):
@@ -918,6 +998,12 @@ class Check(PropertyCheck):
                 out.add(f"{r['need'][0]}:{'hit' if hit else 'miss'}")
                 if hit and o in ("enc", "set", "menc") and self._lenient(case, obs, k) is not None: out.add("finding:F-C31a")
             if o in ("set", "menc") and r["before"][op["i"]].split(",")[2] == "1": out.add("assign:with-TE")
+            if o in ("set", "menc", "mdec"):
+                f = r["before"][op["i"]].split(",")
+                out.add(f"assign:trailers={TRAILERS[int(f[4])]}"); out.add(f"assign:{VERSIONS[int(f[5])]}")
+                out.add("assign:msg=" + ("response" if op["i"] == 0 else "request"))
+                raw0 = _raw_of(r["before"][op["i"]])
+                out.add("assign:cl-before=" + ("absent" if f[3] == "none" else "correct" if raw0 is not None and f[3] == str(len(raw0)) else "stale"))
             if o == "menc" and k > 0 and case["ops"][k - 1]["o"] == "mdec": out.add("pair:decode-encode")
             if "c" in op and op["c"] and op["c"] != op["c"].lower(): out.add("coding:mixed-case")
         return sorted(out)
